@@ -15,6 +15,7 @@ extern ec_backend_t ec_backends_supported[] __attribute__((weak));
 extern int next_backend_desc __attribute__((weak));
 extern int is_invalid_fragment_header(fragment_header_t *header) __attribute__((weak));
 }
+void isal_reset(); long isal_injected_failures();
 
 const char *be_name(int be) {
     static const char *n[] = {"null", "jerasure_rs_vand", "jerasure_rs_cauchy", "flat_xor_hd", "isa_l_rs_vand", "shss",
@@ -102,6 +103,8 @@ void world_begin(World &W, const Json &plan) {
     W.running_version = liberasurecode_get_version();
     set_env(W, false, "");
     g_bfail = BFail();
+    isal_reset();
+    if (&next_backend_desc) next_backend_desc = 0;   // every run starts from the same registry state
     W.baseline_live = own::live();
     W.trace.adds("prop", W.prop);
 }
@@ -357,13 +360,13 @@ static void op_create(World &W, const Json &op) {
         W.live_descs.insert(d); W.dead_descs.erase(d);
         W.probe("create.ok." + std::string(be_name(c.be)));
         if (!expect_ok && op.has("expect"))
-            W.probe("create.accepted-outside-expected");
+            W.viol("C05 C13", std::string("create-accepted-unsupported/") + be_name(c.be), "a configuration that must be refused (k<1, m<0, k+m>32 or unsupported flat-XOR shape) was accepted: k=" + std::to_string(c.k) + " m=" + std::to_string(c.m) + " hd=" + std::to_string(c.hd));
     } else {
         if (d == 0) W.viol("C13 C14", "create-returned-zero", "instance_create returned 0: neither a descriptor nor an error");
         if (own::live() != live0)
             W.viol("C13 C14 C16", "failed-create-leak", "refused create retained " + std::to_string((long) own::live() - (long) live0) + " block(s)");
         if (expect_ok && op.has("expect"))
-            W.viol("C01 C05 C19 C13 C14", std::string("create-refused/") + be_name(c.be), "a supported configuration was refused: rc=" + std::to_string(d));
+            W.viol("C01 C05 C19 C13 C14 C17 C18", std::string("create-refused/") + be_name(c.be), "a supported configuration was refused: rc=" + std::to_string(d));
         W.probe("create.refused");
     }
 }
@@ -402,7 +405,7 @@ static void op_put(World &W, const Json &op) {
         return;
     }
     if (rc != 0) {
-        W.viol("C01 C05 C19 C13", std::string("encode-failed/") + be_name(s.cfg.be), "encode of " + std::to_string(len) + " bytes returned " + std::to_string(rc));
+        W.viol("C01 C05 C19 C13 C14 C17 C18", std::string("encode-failed/") + be_name(s.cfg.be), "encode of " + std::to_string(len) + " bytes returned " + std::to_string(rc));
         if (rc < 0 && own::live() != live0) W.viol("C16 C13", "encode-error-leak", "failed encode retained blocks");
         W.arena.release_all();
         return;
@@ -485,8 +488,10 @@ static void op_get(World &W, const Json &op) {
     size_t live0 = own::live();
     W.cur_api = "decode";
     arm_bfail(W, op);
+    long inj0 = isal_injected_failures();
     int rc = liberasurecode_decode(s.desc, D.ptrs.data(), num, o.flen, force, &out, &outlen);
     bool fired = disarm_bfail(W);
+    if (isal_injected_failures() != inj0) { fired = true; W.fault("ISAL_INVERT_FAIL.fired"); }
     W.trace.add("get.rc", rc);
     bool same = s.cfg.same(o.cfg) && coded_backend(s.cfg.be);
     bool exact = rc == 0 && out && outlen == o.data.size() && !bytes_differ(out, o.data.data(), outlen);
@@ -495,7 +500,7 @@ static void op_get(World &W, const Json &op) {
     int n = s.cfg.n();
     int er = n - __builtin_popcountll(D.pristine_mask);
     if (fired) {
-        if (rc >= 0) W.viol("C17", "decode-failure-swallowed", "backend decode failed, public rc=" + std::to_string(rc));
+        if (rc >= 0) W.viol("C17 C19", "decode-failure-swallowed", "backend decode failed, public rc=" + std::to_string(rc));
     } else if (same) {
         std::string reg = regime(s.cfg, er);
         std::string who = std::string(be_name(s.cfg.be)) + "/" + reg;
@@ -503,8 +508,8 @@ static void op_get(World &W, const Json &op) {
             bool tol = within_tolerance(s.cfg, D.pristine_mask);
             if (tol) {
                 W.probe("get.within-tolerance");
-                if (rc != 0) W.viol("C01 C05 C19", "decode-refused/" + who, "decode of a tolerated erasure set returned " + std::to_string(rc) + " (" + std::to_string(er) + " erasures)");
-                else if (!exact) W.viol("C01 C05 C19 C02", "decode-wrong-bytes/" + who, "decode returned success with different bytes/length (len " + std::to_string(outlen) + " vs " + std::to_string(o.data.size()) + ")");
+                if (rc != 0) W.viol("C01 C05 C19 C14 C17 C18", "decode-refused/" + who, "decode of a tolerated erasure set returned " + std::to_string(rc) + " (" + std::to_string(er) + " erasures)");
+                else if (!exact) W.viol("C01 C05 C19 C02 C14 C17 C18", "decode-wrong-bytes/" + who, "decode returned success with different bytes/length (len " + std::to_string(outlen) + " vs " + std::to_string(o.data.size()) + ")");
             } else {
                 W.probe("get.beyond-tolerance");
                 if (rc == 0 && !exact) W.viol("C02 C19", "decode-wrong-bytes/" + who, "decode of an unrecoverable set (" + std::to_string(er) + " erasures) returned success with different bytes");
@@ -553,8 +558,10 @@ static void op_repair(World &W, const Json &op) {
     size_t live0 = own::live();
     W.cur_api = "reconstruct_fragment";
     arm_bfail(W, op);
+    long inj0 = isal_injected_failures();
     int rc = liberasurecode_reconstruct_fragment(s.desc, D.ptrs.data(), num, o.flen, dest, (char *) outb);
     bool fired = disarm_bfail(W);
+    if (isal_injected_failures() != inj0) { fired = true; W.fault("ISAL_INVERT_FAIL.fired"); }
     W.trace.add("repair.rc", rc);
     if (rc == 0) W.trace.addbuf("repair.out", outb, o.flen);
     bool same = s.cfg.same(o.cfg) && coded_backend(s.cfg.be);
@@ -562,7 +569,7 @@ static void op_repair(World &W, const Json &op) {
     int er = n - __builtin_popcountll(D.pristine_mask);
     bool inrange = dest >= 0 && dest < n;
     if (fired) {
-        if (rc >= 0) W.viol("C17", "reconstruct-failure-swallowed", "backend reconstruct failed, public rc=" + std::to_string(rc));
+        if (rc >= 0) W.viol("C17 C19", "reconstruct-failure-swallowed", "backend reconstruct failed, public rc=" + std::to_string(rc));
     } else if (!inrange) {
         if (rc >= 0) W.viol("C03 C13", "reconstruct/out-of-range-destination-accepted", "destination " + std::to_string(dest) + " rc=" + std::to_string(rc));
         else W.probe("repair.dest-out-of-range.refused");
@@ -582,8 +589,8 @@ static void op_repair(World &W, const Json &op) {
             bool have_dest = (D.pristine_mask >> dest) & 1;
             if (tol) {
                 W.probe(have_dest ? "repair.dest-available" : "repair.dest-missing");
-                if (rc != 0) W.viol("C03 C05 C19", "reconstruct-refused/" + who, "reconstruct of index " + std::to_string(dest) + " within tolerance returned " + std::to_string(rc));
-                else if (!equal_orig()) W.viol("C03 C05 C19 C02", std::string(have_dest ? "reconstruct-available-changed/" : "reconstruct-wrong-bytes/") + who, "reconstructed fragment " + std::to_string(dest) + " differs from the one encode produced");
+                if (rc != 0) W.viol("C03 C05 C19 C14 C17 C18", "reconstruct-refused/" + who, "reconstruct of index " + std::to_string(dest) + " within tolerance returned " + std::to_string(rc));
+                else if (!equal_orig()) W.viol("C03 C05 C19 C02 C14 C17 C18", std::string(have_dest ? "reconstruct-available-changed/" : "reconstruct-wrong-bytes/") + who, "reconstructed fragment " + std::to_string(dest) + " differs from the one encode produced");
                 else if (!env_same && s.cfg.ct == ref::CT_CRC32 && !have_dest) {
                     bool lg = env_legacy(W);
                     const u8 *pl = outb + ref::HDR; u32 sz = ref::ld32(outb + ref::OFF_SIZE);
@@ -666,7 +673,7 @@ static void op_plan(World &W, const Json &op) {
     }
     if (tol) {
         W.probe("plan.within");
-        if (rc != 0) W.viol("C06 C19", "refused/" + who, "fragments_needed within tolerance returned " + std::to_string(rc));
+        if (rc != 0) W.viol("C06 C19 C17", "refused/" + who, "fragments_needed within tolerance returned " + std::to_string(rc));
         else if (!bad.empty()) W.viol("C06 C19", bad + "/" + who, "answer violates the contract: " + bad);
     } else {
         W.probe("plan.beyond");
